@@ -14,12 +14,12 @@ import (
 // sanitizers are recognised by the shape of what they do, not by their names.
 
 type taintCtx struct {
-	c     *Ctx
-	pkg   string // import path of the renderer package being analysed
-	kind  string // "csv" | "markdown" | "json"
-	memo  map[string]int // 0 unknown, 1 clean, 2 tainted, 3 in progress
-	queue []taintJob
-	done  map[string]bool
+	c          *Ctx
+	pkg        string         // import path of the renderer package being analysed
+	kind       string         // "csv" | "markdown" | "json"
+	memo       map[string]int // 0 unknown, 1 clean, 2 tainted, 3 in progress
+	queue      []taintJob
+	done       map[string]bool
 	sanitizers map[*ssa.Function]string // recognised sanitizer -> description
 	rejected   map[*ssa.Function]string // string->string helpers that are NOT recognised
 }
